@@ -18,8 +18,10 @@ import (
 // the vocabulary of the LinTrace specs; histories whose final state still has a blocked operation - and a sample
 // of the others - are printed and judged by TLC (LinTraceStrict: nothing enabled may be blocked at quiescence).
 //
-//	consume: unlimited container; k waiting consumers + k pushes          (all consumers must return, Len 0)
-//	produce: capacity 1, pre-filled; k blocking producers + k pops        (producers blocked only if full)
+//	consume:   unlimited container; k waiting consumers + k pushes        (all consumers must return, Len 0)
+//	produce:   capacity 1, pre-filled; k blocking producers + k pops      (producers blocked only if full)
+//	closewake: unlimited container; k waiting consumers + Close           (all consumers must return "closed")
+//	closefull: capacity 1, pre-filled; k blocking producers + Close       (all producers must return "closed")
 func storm(rounds, k, procs int, scenario string) {
 	runtime.GOMAXPROCS(procs)
 	if which == "deque" && k > 1 {
@@ -37,7 +39,16 @@ func storm(rounds, k, procs int, scenario string) {
 	for r := 0; r < rounds; r++ {
 		rd := &round{rec: &rt.Recorder{}, kind: "nolimit"}
 		var blockOp, enableOp string
+		closing := scenario == "closewake" || scenario == "closefull"
 		switch {
+		case scenario == "closewake" && which == "queue":
+			blockOp, enableOp = []string{"wait", "drecv"}[r%2], "close"
+		case scenario == "closewake":
+			blockOp, enableOp = []string{"wfront", "wback", "drecv"}[r%3], "close"
+		case scenario == "closefull" && which == "queue":
+			rd.kind, rd.hard, blockOp, enableOp = "quota", 1, "badd", "close"
+		case scenario == "closefull":
+			rd.kind, rd.hard, blockOp, enableOp = "hard", 1, []string{"wpushb", "wpushf", "dsend"}[r%3], "close"
 		case scenario == "consume" && which == "queue":
 			blockOp, enableOp = []string{"wait", "drecv"}[r%2], []string{"add", "dsend"}[(r/2)%2]
 		case scenario == "consume":
@@ -53,7 +64,7 @@ func storm(rounds, k, procs int, scenario string) {
 		}
 		rd.q = q
 		id := 0
-		if scenario == "produce" {
+		if scenario == "produce" || scenario == "closefull" {
 			id++
 			fill := map[string]string{"queue": "add", "deque": "pushb"}[which]
 			rd.rec.Log(rt.Event{"ev": "call", "id": id, "op": fill, "arg": "v0"})
@@ -74,12 +85,16 @@ func storm(rounds, k, procs int, scenario string) {
 		}
 		for i := 0; i < k; i++ {
 			arg := ""
-			if scenario == "produce" {
+			if scenario == "produce" || scenario == "closefull" {
 				arg = fmt.Sprintf("p%d", i+1)
 			}
 			launch(blockOp, arg)
 		}
-		for i := 0; i < k; i++ {
+		nenable := k
+		if closing {
+			nenable = 1
+		}
+		for i := 0; i < nenable; i++ {
 			arg := ""
 			if scenario == "consume" {
 				arg = fmt.Sprintf("v%d", i+1)
